@@ -438,6 +438,10 @@ def _run_unit(ccls, case_name, case, res, goal_rlimit):
         from .interp_call import number_loops
 
         frame.loop_ordinals = number_loops(info.node)
+        from .interp_call import number_comprehensions
+        frame.comp_ordinals = number_comprehensions(info.node)
+        comps = getattr(ccls, "comprehensions", None) or {}
+        frame.comp_contracts = (comps(**case) if case else comps()) if callable(comps) else comps
         I.old_heap = path.snapshot_heap()
         old_ns = OldNS(dict(args))
         frame.old_ns = old_ns
